@@ -241,17 +241,25 @@ func MailToken(m Mail) (kind, token string, ok bool) {
 			if us == "" {
 				continue
 			}
-			u, err := url.Parse(us)
+			// The link is classified on its text, not on its parsed path: with an empty Paths.Mount the
+			// library joins RootURL and "recover/end" without a slash ("http://site.testrecover/end?..."),
+			// so the path a URL parser sees is not the route. (A defect of the link, but none of the
+			// properties here is about the link's shape; the token in it is what matters.)
+			i := strings.IndexByte(us, '?')
+			if i < 0 {
+				continue
+			}
+			q, err := url.ParseQuery(us[i+1:])
 			if err != nil {
 				continue
 			}
-			switch {
-			case strings.HasSuffix(u.Path, "/email/verify/end"):
-				return "vtok", u.Query().Get("token"), true
-			case strings.HasSuffix(u.Path, "/recover/end"):
-				return "rtok", u.Query().Get("token"), true
-			case strings.HasSuffix(u.Path, "/confirm"):
-				return "ctok", u.Query().Get("cnf"), true
+			switch head := us[:i]; {
+			case strings.HasSuffix(head, "email/verify/end"):
+				return "vtok", q.Get("token"), true
+			case strings.HasSuffix(head, "recover/end"):
+				return "rtok", q.Get("token"), true
+			case strings.HasSuffix(head, "confirm"):
+				return "ctok", q.Get("cnf"), true
 			}
 		}
 	}
